@@ -130,7 +130,7 @@ def skip_text(r, sem):
 def skip_case(r, sem):
     text = skip_text(r, sem)
     n = len(text)
-    d = r.choice(["l", "r", "-", "l", "r", "-", "l", "r", "-", "t"])
+    d = r.choice(["l", "r", "-", "l", "r", "-", "l", "r", "-", "l", "r", "-", "t", "b"])
     flags = r.choice([0, 0, 0, PRESERVE, PRESERVE, REMOVE])
     k = r.below(6)
     if k < 3: feat = None
@@ -180,38 +180,57 @@ def parse_shape(o):
     return out
 
 
+def applicable(s):
+    return not s["v"] and s["h"] and s["fmt"] not in (1, 4)
+
+
+def walk_sub(pairs, gids, skip, on, facts=None):
+    """one run of the kern machine as the MODEL runs it -> per-glyph [dxa, dxo]"""
+    n = len(gids)
+    K = [[0, 0] for _ in range(n)]
+    i = 0
+    while i < n:
+        if not on[i]:
+            i += 1; continue
+        j = next((q for q in range(i + 1, n) if not skip[q]), None)
+        if j is None or not on[j]:
+            i += 1; continue
+        kv = pairs.get((gids[i], gids[j]), 0)
+        if kv:
+            k1 = kv >> 1; k2 = kv - k1
+            K[i][0] += k1; K[j][0] += k2; K[j][1] += k2
+            if facts is not None:
+                facts["pairs"] += 1
+                if j > i + 1: facts["across_skipped"] += 1
+        if facts is not None and any(on[q] and pairs.get((gids[q], gids[j]), 0) for q in range(i + 1, j)):
+            facts["tempting"] += 1           # a skipped glyph has a pair of its own with the right glyph
+        i = j                                # NOT i + 1: a skipped glyph never starts a pair
+    return K
+
+
+def kern_view(sem, text, d, feat, off):
+    """(gids, skip, on, mark, di) of the glyphs the kern pass sees; on = all False when nothing is kerned at all"""
+    cls = [glyph_class(sem, text[g[1]]) for g in off]
+    on = [d in "lr-" and kern_on(feat, g[1]) for g in off]
+    # vertical text: the `vkrn` mask of a font without GPOS is 0, nothing is kerned
+    return [g[0] for g in off], [m or di for m, di in cls], on, [m for m, _ in cls], [di for _, di in cls]
+
+
 def model_walk(sem, text, d, feat, off):
     """the pair walk of the model over the glyphs the kern pass sees, `off` (the kerning-off reply with default ignorables
-    preserved: own gid, cluster = text index, ..., in visual order) -> (per-glyph [dxa, dxo] before the zeroing passes, facts)"""
+    preserved: own gid, cluster = text index, ..., in visual order), every applicable subtable in turn
+    -> (per-glyph [dxa, dxo] before the zeroing passes, facts)"""
     n = len(off)
     K = [[0, 0] for _ in range(n)]
     facts = {"pairs": 0, "across_skipped": 0, "tempting": 0}
-    if d not in "lr-":
-        return K, facts                      # vertical text: the `vkrn` mask of a font without GPOS is 0, nothing is kerned
-    cls = [glyph_class(sem, text[g[1]]) for g in off]
-    skip = [m or di for m, di in cls]
-    on = [kern_on(feat, g[1]) for g in off]
+    gids, skip, on, _, _ = kern_view(sem, text, d, feat, off)
     if not any(on):
         return K, facts
     for s in sem["subs"]:
-        if s["v"] or not s["h"] or s["fmt"] in (1, 4):
+        if not applicable(s):
             continue
-        i = 0
-        while i < n:
-            if not on[i]:
-                i += 1; continue
-            j = next((q for q in range(i + 1, n) if not skip[q]), None)
-            if j is None or not on[j]:
-                i += 1; continue
-            kv = s["pairs"].get((off[i][0], off[j][0]), 0)
-            if kv:
-                k1 = kv >> 1; k2 = kv - k1
-                K[i][0] += k1; K[j][0] += k2; K[j][1] += k2
-                facts["pairs"] += 1
-                if j > i + 1: facts["across_skipped"] += 1
-            if any(on[q] and s["pairs"].get((off[q][0], off[j][0]), 0) for q in range(i + 1, j)):
-                facts["tempting"] += 1       # a skipped glyph has a pair of its own with the right glyph
-            i = j
+        for k, (a, b) in enumerate(walk_sub(s["pairs"], gids, skip, on, facts)):
+            K[k][0] += a; K[k][1] += b
     return K, facts
 
 
@@ -289,7 +308,62 @@ def violation_replay(stream, sem, rec, g, t, text, d, flags, feat, res, sx, sp, 
     return rp
 
 
-def run_cases(ctx, shim, stream, cases, stats, limit=2, extra=None):
+def up_of(cp, mark):
+    """unicode_props as buffer.rs computes them, as far as the iterator reads them (ignorable / hidden / ZWJ / ZWNJ bits)"""
+    if cp == 0x200D: return 0x121
+    if cp == 0x200C: return 0x221
+    if cp in DI_HIDDEN: return 0x6C if cp == 0x34F else 0x61
+    if cp in DI_SKIPPED: return 0xAC if 0xFE00 <= cp <= 0xFE0F else 0x21
+    return 0x8C if cp in MARKS else 7
+
+
+def tie_requests(sem, text, d, feat, full):
+    """`pf mk` requests (one per applicable subtable, zero positions) for the glyphs the kern pass saw, and python's walk"""
+    gids, skip, on, mark, di = kern_view(sem, text, d, feat, full)
+    if not any(on):
+        return []
+    infos = ",".join(f"{g}:{256 if o else 0}:{8 if m else 2}:{up_of(text[x[1]], m)}:{k}"
+                     for k, (g, o, m, x) in enumerate(zip(gids, on, mark, full)))
+    out = []
+    for s in sem["subs"]:
+        if not applicable(s):
+            continue
+        pt = ",".join(f"{a}:{b}:{v}" for (a, b), v in sorted(s["pairs"].items()) if v) or "-"
+        ln = f"pf mk l {len(gids)} 256 0 0 2 {pt} {infos} | " + " ".join("0:0:0:0:0:0" for _ in gids)
+        out.append((ln, walk_sub(s["pairs"], gids, skip, on)))
+    return out
+
+
+def model_tie(ctx, shim, ties):
+    """python's walk (the oracle of the two searches) against the Lean model AND the crate's private machine_kern on the very
+    glyph lists the searches judged"""
+    lines = [ln for ln, _ in ties]
+    if not lines:
+        ctx.note_search("kern-skip-oracle-tie", 0, 0, rule="nothing to tie"); return
+    model = vlib.build_model()
+    om, oc = vlib.run_lines(model, lines), vlib.run_lines(shim, lines)
+    nbad, nz = 0, 0
+    for (ln, K), m, c in zip(ties, om, oc):
+        want = " ".join(f"{a}:0:{b}:0:0:0" for a, b in K)
+        got = {"model": " ".join(m.split()[4:]) if m.startswith("ok ") else m, "crate": " ".join(c.split()[4:]) if c.startswith("ok ") else c}
+        if any(a or b for a, b in K): nz += 1
+        for who in ("model", "crate"):
+            if got[who] != want:
+                nbad += 1
+                if nbad <= 2:
+                    ctx.violation(f"the pair walk of the kern-skip-shape oracle and the {who}'s machine_kern disagree on a glyph list "
+                                  f"the search judged: {got[who][:300]} vs {want[:300]}",
+                                  {"stage": "search", "stream": "kern-skip-oracle-tie", "request": ln, "side": who,
+                                   "oracle_positions": want, "model": m[:600], "impl": c[:600]})
+    ctx.note_search("kern-skip-oracle-tie", len(lines), nz, deviations=nbad,
+                    rule="the glyph lists the kern pass saw in the kern-skip-shape / promoted-kern-machine cases (own glyph ids, kern "
+                         "mask per glyph from the feature ranges, mark / default-ignorable status as the oracle derives it from the "
+                         "recipe) as `pf mk` requests, one per applicable subtable, zero positions: the Lean model "
+                         "(PairFlag.machineKernF) and the crate's private machine_kern must both give the positions of python's "
+                         "pair walk — the oracle's walk IS the model's; non-trivial = some pair kerned")
+
+
+def run_cases(ctx, shim, stream, cases, stats, limit=2, extra=None, ties=None, ntie=0):
     """cases: [(rec, sem, [(text, d, flags, feat), ...])] -> number of deviations; reports the shortest `limit`"""
     groups = []
     for f, (rec, sem, ms) in enumerate(cases):
@@ -311,6 +385,8 @@ def run_cases(ctx, shim, stream, cases, stats, limit=2, extra=None):
             for key, v in (("per_kind", sem["kind"]), ("per_script", sem["script"]), ("per_dir", d), ("per_flags", str(flags))):
                 stats[key][v] = stats[key].get(v, 0) + 1
             res = check(sem, text, d, flags, feat, sx, sp, sf, stats)
+            if ties is not None and len(ties) < ntie:
+                ties += tie_requests(sem, text, d, feat, parse_shape(sf))
             if res is not None:
                 bad.append((len(text), len(g[0]), f, t, res))
     bad.sort()
@@ -329,20 +405,22 @@ def new_stats():
             "per_kind": {}, "per_script": {}, "per_dir": {}, "per_flags": {}}
 
 
-def search(ctx, shim, r, nfonts, ntexts):
+def search(ctx, shim, r, nfonts, ntexts, ntie=600):
     cases = []
     for _ in range(nfonts):
         rec, sem = skip_font(r)
         cases.append((rec, sem, [skip_case(r, sem) for _ in range(ntexts)]))
     stats = new_stats()
-    nbad = run_cases(ctx, shim, "kern-skip-shape", cases, stats)
+    ties = []
+    nbad = run_cases(ctx, shim, "kern-skip-shape", cases, stats, ties=ties, ntie=ntie)
+    model_tie(ctx, shim, ties)
     ctx.note_search("kern-skip-shape", stats["shapes"], stats["tempting"], detail=stats, deviations=nbad,
                     rule="generated cmap+hmtx fonts (Latin / Hebrew / Arabic / private-use letters, 1-3 combining marks, 1-3 of ZWJ / "
                          "ZWNJ / SHY / WJ / VS1 / VS16, CGJ, space; GDEF absent (classes synthesised), without marks, or with classes "
                          "drawn independently of the characters) with a `kern` (OpenType / Apple flavour, format 0) or `kerx` "
                          "(formats 0 / 2 / 6) table of 1-3 subtables whose pairs are drawn over ALL glyphs on either side x texts of "
                          "2-4 letters with 0-3 marks / default ignorables after each and before the first x directions l / r / "
-                         "guessed (RTL-native for Hebrew / Arabic) / t x buffer flags none / PRESERVE / REMOVE_DEFAULT_IGNORABLES x "
+                         "guessed (RTL-native for Hebrew / Arabic) / t / b x buffer flags none / PRESERVE / REMOVE_DEFAULT_IGNORABLES x "
                          "kern absent / 1 / ranged 0, cluster level 2; each shaped with kerning as requested and with kern=0 on the "
                          "same font; oracle: same glyphs, and the per-glyph difference equals the kerning of the pairs the MODEL "
                          "selects (marks and non-hidden default ignorables skipped, the next pair starts at the right glyph), "
@@ -358,12 +436,18 @@ P_MARKS = [0x300 + k for k in range(0x30)]
 
 
 def parse_mk(ln):
-    """`pf mk` / `kern mk` request -> (dir, cross, pairs {(l, r): v}, [(gid, kern-mask on, class)]) with class in
-    base / mark / di / hid; None when the request has no shape()-level counterpart"""
+    """`pf mk` / `pf kx` / `kern mk` request -> (dir, cross, pairs {(l, r): v}, [(gid, kern-mask on, class)], table kind) with
+    class in base / mark / di / hid; None when the request has no shape()-level counterpart"""
     t = ln.split()
-    if t[:2] == ["pf", "mk"]:
-        d, n, mask, cross, pt, it = t[2], int(t[3]), int(t[4]), t[5], t[8], t[9]
+    kind = "kern-ot"
+    if t[:2] == ["pf", "mk"] or t[:2] == ["pf", "kx"]:
+        if t[1] == "mk":
+            d, n, mask, cross, pt, it = t[2], int(t[3]), int(t[4]), t[5], t[8], t[9]
+        else:
+            d, n, mask, cross, pt, it = t[4], None, int(t[6]), t[7], t[10], t[11]
+            kind = "kerx"
         infos = [] if it == "-" else [tuple(int(x) for x in e.split(":")) for e in it.split(",")]
+        if n is None: n = len(infos)
         if mask & 7:
             return None                       # a kern mask on the glyph-flag bits: no feature map produces it
         glyphs = []
@@ -380,7 +464,7 @@ def parse_mk(ln):
     else:
         return None
     pairs = {} if pt == "-" else {(int(a), int(b)): int(v) for a, b, v in (e.split(":") for e in pt.split(","))}
-    return d, cross == "1", pairs, glyphs
+    return d, cross == "1", pairs, glyphs, kind
 
 
 def promote_case(ln):
@@ -388,7 +472,7 @@ def promote_case(ln):
     p = parse_mk(ln)
     if p is None:
         return None
-    d, cross, pairs, glyphs = p
+    d, cross, pairs, glyphs, kind = p
     if cross or len(glyphs) < 2 or d not in "lr":
         return None
     pools = {"base": list(P_BASES), "mark": list(P_MARKS), "di": list(DI_SKIPPED), "hid": list(DI_HIDDEN)}
@@ -403,8 +487,9 @@ def promote_case(ln):
     ng = max([g for g, _, _ in glyphs] + [l for l, _ in pairs] + [rr for _, rr in pairs]) + 1
     adv = [0] + [400 + 37 * k for k in range(1, ng)]
     sub = {"v": 0, "h": 1, "c": 0, "fmt": 0, "pairs": {k: v for k, v in pairs.items() if v}}
-    rec = {"num_glyphs": ng, "cmap": cmap, "advances": adv, "tables": {"kern": kern_bytes("kern-ot", [sub]).hex()}}
-    sem = {"kind": "kern-ot", "script": "latn", "cmap": cmap, "gdef": None, "adv": adv, "subs": [sub]}
+    tbl = {"kerx": KX.kerx_table([sub]).hex()} if kind == "kerx" else {"kern": kern_bytes("kern-ot", [sub]).hex()}
+    rec = {"num_glyphs": ng, "cmap": cmap, "advances": adv, "tables": tbl}
+    sem = {"kind": kind, "script": "latn", "cmap": cmap, "gdef": None, "adv": adv, "subs": [sub]}
     feat = [(0, k, k + 1) for k, (_, on, _) in enumerate(glyphs) if not on]
     flags = PRESERVE if any(c in ("di", "hid") for _, _, c in glyphs) else 0
     return rec, sem, (text, "l", flags, feat or None)
@@ -428,8 +513,8 @@ def promote(ctx, shim, dis, limit):
                          extra=lambda f: {"from_correspondence": src[f]["request"][:400], "impl": src[f]["impl"][:400],
                                           "model": src[f]["model"][:400]})
     ctx.note_search("promoted-kern-machine", stats["shapes"], stats["pairs"], disagreements=len(dis), deviations=nbad,
-                    rule="the shortest `pf mk` / `kern mk` requests on which crate and model disagree (horizontal, not cross-stream, "
-                         "kern mask above the flag bits), rebuilt as a text over a kern-table font (the request's glyph ids reached "
+                    rule="the shortest `pf mk` / `pf kx` / `kern mk` requests on which crate and model disagree (horizontal, not cross-stream, "
+                         "kern mask above the flag bits), rebuilt as a text over a kern-table (kerx-table for `pf kx`) font (the request's glyph ids reached "
                          "through letters / combining marks / default ignorables / CGJ and TAG characters, its pair table as the "
                          "kern subtable, masked-out glyphs as kern=0 ranges, PRESERVE_DEFAULT_IGNORABLES) and judged by the "
                          "kern-skip-shape oracle; nothing to promote on an unchanged tree")
